@@ -4,8 +4,19 @@ import r_m1
 import r_ovf
 import r_state
 import r_fwd
+import r_live
 
 PROPS = {
+    "C09": {
+        "rules": [r_live.rule_live, r_live.rule_amt_pub],
+        "floors": {},
+        "explanation": "tbd",
+    },
+    "C18": {
+        "rules": [r_live.rule_unw],
+        "floors": {},
+        "explanation": "tbd",
+    },
     "C12": {
         "rules": [r_fwd.rule_each, r_ovf.rule_zero],
         "floors": {},
